@@ -735,6 +735,15 @@ fn long_project(seed: u64, rng: &mut Rng) -> Project {
         entry.push_str(&format!("export type LongTuple = [{}];\n", els.join(", ")));
         keys.push("LongTuple: LongTuple".into());
     }
+    // a WIDE object whose members are all different nested objects, under a semantic operator: more distinct object
+    // shapes inside one emptiness decision than any bounded table of the semantic engine holds (seeded change c04r-1
+    // cleared a memo at 1 024 entries, together with the in-progress marks of the questions still being answered)
+    if rng.chance(1, 2) {
+        let m = rng.range(600, 2000);
+        let props: Vec<String> = (0..m).map(|i| format!("w{}: {{ a{}: string; b{}: {{ c{}: number }} }}", i, i, i, i)).collect();
+        entry.push_str(&format!("export type WideNest = {{ {} }};\nexport type WideOnly = Exclude<WideNest | string, string>;\n", props.join("; ")));
+        keys.push("WideOnly: WideOnly".into());
+    }
     if keys.is_empty() {
         entry.push_str("export type AnyOp = Op;\n");
         keys.push("AnyOp: AnyOp".into());
